@@ -86,10 +86,12 @@ CHECKS['C17'] = dict(
     text='Seeded search over concurrent register/unregister calls, declared routes and reconnects against a fake NFD whose '
          'n-th reply is scripted (200/4xx/5xx with and without body, Nack, silence, garbage, delayed around the 1 s lifetime, '
          'duplicated); oracle checks one command per call, the command-Interest format of each front-end with the independent '
-         'TLV reader, return value == status 200, one outstanding command at a time, strictly increasing timestamps, and '
-         'parse_response round trips.',
+         'TLV reader, return value == status 200, one outstanding command at a time, strictly increasing timestamps (also across '
+         'a reconnect), every declared route registered once on every connection that follows its declaration, and '
+         'parse_response round trips. In a quarter of the runs the wall clock moves on between two consecutive reads; some runs '
+         'make a call before the application connects, or drop the connection right after the last start-up command.',
     note='Trusted: SimLoop, the independent TLV reader/writer, the fake forwarder. Backward wall-clock steps are not generated '
-         '(the statement quantifies over calls at the same clock reading, not over clock steps).',
+         '(the statement quantifies over calls at the same clock reading, not over clock steps); forward ticks between reads are.',
     real=REAL_COMMON + ['ndn.transport.nfd_registerer.NfdRegister', 'ndn.appv2.NDNApp', 'ndn.app.NDNApp (register/unregister/route)',
                         'ndn.app_support.nfd_mgmt (make_command, make_command_v2, parse_response)', 'DigestSha256Signer'],
     stub=STUB_COMMON + ['the forwarder management module (engines/registration.py)'],
@@ -121,10 +123,10 @@ CHECKS['C18'] = dict(
     technique='deterministic simulation (virtual-time asyncio loop, simulated wall clock, scripted timer randomness) + '
               'reference state-vector model stepped with the same events',
     text='Seeded search over sequences of received vectors (newer, older, incomparable, over-claiming, malformed in 8 ways), '
-         'local publications, start/stop, placed relative to the suppression timer the instance will sample; oracle = '
+         'local publications, start/stop/back-to-back restart, sequence numbers up to 2**63, placed relative to the suppression timer the instance will sample; oracle = '
          'entry-wise-max model checked after every handled Interest, monotonicity checked after every loop step, callback iff '
          'an entry was raised, publication emits the full vector promptly, suppression end emits iff local is newer than the '
-         'merge of the vectors heard.',
+         'merge of the vectors heard, and every emitted sync Interest has exactly one cause.',
     note='Trusted: SimLoop, the independent TLV reader/writer, the reference model. Vectors with a malformed entry among '
          'valid ones are judged only for consistency (no raise, callback iff raised, no partial merge without callback); '
          'the periodic (steady-state) timer is exercised but its emissions are not judged.',
@@ -177,15 +179,18 @@ CHECKS['C02'] = dict(
 
 CHECKS['C15'] = dict(
     engine='keychain', design_ref='5 (C15)', level='fault_enumeration',
-    technique='seeded operation histories + enumeration of an error fault and a crash at every storage step of each sampled '
-              'history (SQLite proxy connection, private-key file seam), reference-model oracle with adopt-and-repeat under faults',
+    technique='seeded operation histories + enumeration of three faults (I/O error with rollback, statement failure without '
+              'rollback, crash) at every storage step of each sampled history (SQLite proxy connection, private-key file seam), '
+              'reference-model oracle with adopt-and-repeat under faults',
     text='For each sampled history of keychain operations the fault-free run is checked operation by operation against a '
          'reference model (mapping views: iteration/len/in/[] agree and are scoped to their owner; at most one default per '
          'scope; deletes remove everything beneath incl. the private key file; every get_signer argument shape yields a signer '
          'whose signature verifies under the selected key and names the selected certificate). Then the history is re-run once '
-         'per storage step with an I/O error there and once with a crash there (all steps, capped at 200 points): untouched '
-         'entities must be unchanged, the views must stay consistent, and repeating the failed operation must complete it or '
-         'refuse cleanly on a store that already shows its full effect.',
+         'per storage step with an I/O error there (SQLite rolls back), once with a "database is locked" style failure (the '
+         'transaction stays open) and once with a crash there (all steps, capped at 200 points): untouched entities must be '
+         'unchanged, the views must stay consistent, repeating the failed operation must complete it or refuse cleanly on a '
+         'store that already shows its full effect, and afterwards no listed key may lack its private key. Operations include '
+         'deletes through the Identity/Key views and default setters called with stale or foreign names.',
     note="Trusted: SQLite's own atomicity (a crash = uncommitted work disappears; torn database pages are not injected, torn "
          'private-key files are), the reference model, pycryptodomex. RSA key generation is served from a committed key pool; EC '
          'key generation and ECDSA nonces use a seeded random source. str-typed key/cert names in sign_args are not generated.',
@@ -195,7 +200,7 @@ CHECKS['C15'] = dict(
     stub=['sqlite3 module object inside keychain_sqlite3 (proxy connection counting/failing storage steps over a real connection)',
           'tpm_file.open / tpm_file.os.remove (fault-injecting wrappers over the real files)', 'RSA.generate (key pool), ECC.generate randfunc, ECDSA nonces, key-id bytes (seeded)',
           'wall clock (utils.time, security_v2.datetime)'],
-    rule='seed -> history of 3-14 (thorough: 3-25) operations; evaluations = sampled histories, each run 1 + 2K times (K = its '
+    rule='seed -> history of 3-14 (thorough: 3-25) operations; evaluations = sampled histories, each run 1 + 3K times (K = its '
          'storage steps); non-trivial: >=3 operations and >=4 storage steps; distinct = hash of the operation-kind sequence')
 
 
@@ -203,16 +208,17 @@ CHECKS['C14'] = dict(
     engine='trustchain', design_ref='5 (C14)', level='exploration',
     technique='deterministic simulation of certificate retrieval (virtual-time loop, certificate-serving peer with per-name '
               'fault policies, store changes between validator instances) + independent chain walker as oracle',
-    text='Generated certificate hierarchies (depth 1-4, EC and RSA keys, real self_sign/derive_cert) with a matching Light '
-         'VerSec schema compiled by the real compiler; 1-3 lvs_validator / CascadeChecker instances created at scripted times, '
+    text='Generated certificate hierarchies (depth 1-4, EC, RSA and Ed25519 keys, real self_sign/derive_cert) with a matching Light '
+         'VerSec schema compiled by the real compiler (also schemas whose key rule carries a component constraint); 1-3 lvs_validator / CascadeChecker instances created at scripted times, '
          'with the certificate store changing in between (withdrawn, replaced by an attacker\'s certificate); one deviation per '
          'run (forged signature in packet or certificate, substituted key, missing certificate, Nack, transient loss, issuer of '
-         'the wrong shape or constraint value, unsigned/digest-signed packet, loop, bad anchor). The verdict of every instance '
-         'must equal that of an independent walker: schema signing check at every link, signature verified with pycryptodomex '
-         'over the independently computed signed portion, every certificate retrievable now.',
-    note="Trusted: the schema's own signing check (Checker.check; its correctness is C12, not claimed), pycryptodomex, the "
-         'independent TLV reader, SimLoop. Under transient loss only safety is judged (never accept without a chain). Only RSA '
-         'and ECDSA links are generated (the key types the cascade checker dispatches on).',
+         'the wrong shape or constraint value, unsigned/digest-signed packet, HMAC keyed with a certificate\'s public bits, loop, '
+         'bad anchor, the connection going away during the chain fetch). The verdict of every instance must equal that of an '
+         'independent walker: signing check at every link by an independent reader of the scenario schemas, signature verified '
+         'with pycryptodomex over the independently computed signed portion, every certificate retrievable now.',
+    note='Trusted: the independent reader of the (small, fixed) set of scenario schemas, pycryptodomex, the independent TLV '
+         'reader, SimLoop. Transient faults are judged exactly per fetch attempt for validations that run alone; for '
+         'overlapping validations and after the connection went away only safety is judged (never accept without a chain).',
     real=REAL_COMMON + ['ndn.app_support.light_versec (compiler, Checker, lvs_validator)', 'ndn.security.validator.cascade_validator',
                         'ndn.security.validator.known_key_validator, digest_validator.union_checker', 'ndn.app.NDNApp (express_interest pipeline used for certificate fetches)',
                         'ndn.app_support.security_v2 (self_sign, derive_cert)', 'ECDSA/RSA signers'],
